@@ -121,51 +121,17 @@ def run(prog: Program, ctx: Ctx) -> None:  # noqa: PLR0912,PLR0915
         except Raised as r:
             got = f"raises {r.exc}"
         ctx.ob("R3", f"google-slot|{label}", got is want or got == want, f"{label}: picked {got!r}, expected {want!r}", where(afp))
-    for fname, gi in (("_read_returns_section", 2), ("_read_yields_section", 0), ("_read_receives_section", 1)):
-        f = prog.function(f"{G}.{fname}")
-        cs = [c for c in calls_in(f.node) if dotted(c.func) == "_annotation_from_parent"]
-        ctx.ob("R3", key(f, "call"), len(cs) == 1, "the reader falls back to the signature through _annotation_from_parent", where(f))
-        for c in cs:
-            g_ = kwarg(c, "gen_index")
-            ctx.ob("R3", key(f, "gen_index"), isinstance(g_, ast.Constant) and g_.value == gi, f"{fname} reads generator slot {gi} (got {unparse(g_) if g_ else None})", where(f, c))
-            m_ = kwarg(c, "multiple")
-            ok = m_ is not None and isinstance(m_, ast.Compare) and "len(" in unparse(m_.left) and isinstance(m_.ops[0], ast.Gt) and getattr(m_.comparators[0], "value", None) == 1
-            ctx.ob("R3", key(f, "multiple"), ok, "the tuple element is selected only when more than one item is documented "
-                   f"(multiple={unparse(m_) if m_ else None}): a single untyped item keeps the whole annotation", where(f, c))
-            ix = kwarg(c, "index")
-            ctx.ob("R3", key(f, "index"), ix is not None and unparse(ix) == "index", "the element index is the item's own position", where(f, c))
-    for fname, slot in (("_read_returns_section", 2), ("_read_yields_section", 0), ("_read_receives_section", 1)):
-        f = prog.function(f"{N}.{fname}")
-        consts = [n.slice.value for n in walk_no_nested(f.node) if isinstance(n, ast.Subscript) and isinstance(n.value, ast.Attribute) and n.value.attr == "elements"
-                  and isinstance(n.slice, ast.Constant) and "annotation.slice" in unparse(n.value)]
-        ctx.ob("R3", key(f, "numpy-slot"), consts == [slot], f"numpy {fname} reads generator slot {slot} (constants used: {consts})", where(f))
-        idx = [n for n in walk_no_nested(f.node) if isinstance(n, ast.Subscript) and isinstance(n.value, ast.Attribute) and n.value.attr == "elements" and unparse(n.slice) == "index"]
-        ctx.ob("R3", key(f, "numpy-index"), len(idx) >= 1, "multiple items index the tuple with the item's own position", where(f))
+    # (which slot each reader asks for, and that several items index the tuple by their own position, is decided on parsed documents by the round-trip table R6)
 
     # ------------------------------------------------------------------ R4 offset contract
     ctx.rule("R4", "block readers return the index of the last line they consumed (cursor - 1); the main loops pass exactly the first line after the "
                    "header (Google +1, Numpy +2) and add one after the reader: content cannot leak into the next section")
     pr = Progress(prog)
-    for mod, skip in ((G, 1), (N, 2)):
-        for rd in ("_read_block_items", "_read_block"):
-            f = prog.function(f"{mod}.{rd}")
-            cfg = cfg_of(f)
-            finals = [n for n in cfg.live_nodes() if n.kind == "return" and isinstance(n.expr, ast.Tuple)]
-            last = finals[-1] if finals else None
-            # the return that follows the scanning loop
-            tail = f.node.body[-1]
-            ok = isinstance(tail, ast.Return) and isinstance(tail.value, ast.Tuple) and isinstance(tail.value.elts[-1], ast.BinOp) \
-                and unparse(tail.value.elts[-1]).replace(" ", "").endswith("-1") and isinstance(tail.value.elts[-1].left, ast.Name) and isinstance(tail.value.elts[-1].op, ast.Sub)
-            ctx.ob("R4", key(f, "returns-last-consumed"), ok, f"{mod.split('.')[-1]}.{rd} returns `cursor - 1` after its scanning loop", where(f))
+    for mod in (G, N):
         main = prog.function(f"{mod}.parse_{mod.split('.')[-1]}")
-        rcalls = [c for c in calls_in(main.node) if isinstance(c.func, ast.Name) and c.func.id == "reader"]
-        ctx.expect_min("R4", len(rcalls), 1)
-        for c in rcalls:
-            off = kwarg(c, "offset")
-            ctx.ob("R4", key(main, "header-skip"), off is not None and unparse(off).replace(" ", "") == f"offset+{skip}", f"section readers start {skip} line(s) after the title "
-                   f"({unparse(off) if off else None})", where(main, c))
         s_ = pr.summary(prog.function(f"{mod}._read_block_items"))
         ctx.ob("R4", f"{mod.split('.')[-1]}|summary", s_ is not None and s_ >= -1, f"summarised contract of {mod.split('.')[-1]}._read_block_items: returned offset >= offset {s_:+d}" if s_ is not None else "no summary", where(main))
+    # (that each reader is started right after its title and hands back the last line it consumed is decided on adjacent sections by the round-trip table R6)
 
     # ------------------------------------------------------------------ R5 nothing dropped / leaked
     ctx.rule("R5", "between two section flushes the Numpy admonition title is re-assigned (a stale title cannot label a later section); repeated Sphinx "
@@ -393,6 +359,36 @@ def _roundtrip_table(prog: Program, ctx: Ctx) -> None:  # noqa: PLR0912,PLR0915
             gd = got
         n += 1
         ctx.ob("R6", f"sphinx|{dname}|type {type_form}", gd == want, f"sphinx: description with {dname}, type given as {type_form}: {gd}" + ("" if gd == want else f"; written: {want}"), where(fn))
+    # annotations omitted from Returns / Yields / Receives come from the matching slot of the signature's return annotation
+    def ann(kind: str, elements: list | None = None, item: object = None) -> Obj:
+        sl: object = Obj(None, {"elements": elements or [], "__closed__": True}, label="slice") if kind in ("generator", "tuple") else item
+        return Obj(None, {"is_generator": kind == "generator", "is_iterator": kind == "iterator", "is_tuple": kind == "tuple", "slice": sl, "__closed__": True}, label=kind)
+
+    tup = ann("tuple", ["t0", "t1", "t2"])
+    sig_cases = {
+        "Generator[Y, S, R]": (ann("generator", ["Y", "S", "R"]), {"returns": "R", "yields": "Y", "receives": "S"}, None),
+        "Generator[tuple, tuple, tuple]": (ann("generator", [tup, tup, tup]), {"returns": tup, "yields": tup, "receives": tup}, ["t0", "t1", "t2"]),
+        "Iterator[ITEM]": (ann("iterator", item="ITEM"), {"yields": "ITEM"}, None),
+        "tuple[t0, t1, t2]": (tup, {"returns": tup}, ["t0", "t1", "t2"]),
+    }
+    for style in ("google", "numpy"):
+        fn = prog.function(f"_griffe.docstrings.{style}.parse_{style}")
+        for (sig_label, (annotation, single, several)), kind in itertools.product(sig_cases.items(), ("returns", "yields", "receives")):
+            if kind not in single:
+                continue
+            for n_items in (1, 2, 3):
+                if n_items > 1 and several is None:
+                    continue
+                secs = [(kind, [(f"r{i}", None, [f"Item {i}."]) for i in range(n_items)])]
+                got = parse(style, _render(style, secs), parent(returns=annotation))
+                want_ann = [single[kind]] if n_items == 1 else several[:n_items]
+                want = [("text", "Summary."), (kind, [(f"r{i}", want_ann[i], f"Item {i}.") for i in range(n_items)])]
+                same = isinstance(got, list) and len(got) == 2 and got[0] == want[0] and got[1][0] == kind and len(got[1][1]) == n_items and all(
+                    g_[0] == w_[0] and (g_[1] is w_[1] or g_[1] == w_[1]) and g_[2] == w_[2] for g_, w_ in zip(got[1][1], want[1][1]))
+                n += 1
+                ctx.ob("R6", f"signature|{style}|{kind}|{sig_label}|{n_items} item(s)", same,
+                       f"{style}: {n_items} untyped {kind} item(s) in a function annotated -> {sig_label}: annotations {[g_[1] for g_ in got[1][1]] if isinstance(got, list) and len(got) > 1 else got}, "
+                       f"expected {want_ann}", where(fn))
     ctx.expect_min("R6", n, 450)
     ctx.analysed["roundtrip_documents"] = n
 
